@@ -598,8 +598,9 @@ def r4(repo, chk, ref):
             checked = 1  # CHECK_READ_BOUNDS(self, 1) precedes the switch
             for part in c[1:]:
                 for n_ in cq.preorder(part):
-                    if n_.get("kind") == "BinaryOperator" and n_.get("opcode") == ">" and ctext(strip(cq.kids(n_)[1])) == "self->end":
-                        lhs = strip(cq.kids(n_)[0])
+                    if n_.get("kind") == "BinaryOperator" and n_.get("opcode") in (">", "<", ">=", "<=") and "self->end" in (ctext(strip(cq.kids(n_)[0])), ctext(strip(cq.kids(n_)[1]))):
+                        # `pos + k > end`, mirrored `end < pos + k`, or the negated `pos + k <= end` of a De Morgan form
+                        lhs = strip(cq.kids(n_)[0]) if ctext(strip(cq.kids(n_)[1])) == "self->end" else strip(cq.kids(n_)[1])
                         if lhs.get("kind") == "BinaryOperator" and lhs.get("opcode") == "+" and ctext(strip(cq.kids(lhs)[0])) == "self->pos":
                             k_ = cq.ceval(cq.kids(lhs)[1])
                             if k_ is not None:
